@@ -100,9 +100,140 @@ fn envs(slots: &[Slot], p: u32) -> Vec<HashMap<Slot, u32>> {
     out
 }
 
+/// Where the value of a child class comes from: full tables (classes with up to MAX_TABLE_SLOTS slots)
+/// or lazily evaluated representatives (any number of slots).
+pub trait ClassVals {
+    /// `env` holds the values of the class slots the invocation passes; the rest is taken from `redundant`
+    fn class_value(&self, id: Id, env: HashMap<Slot, u32>, redundant: &dyn Fn(Slot) -> u32, p: u32) -> Option<u32>;
+}
+
+impl ClassVals for HashMap<Id, Table> {
+    fn class_value(&self, id: Id, mut e: HashMap<Slot, u32>, redundant: &dyn Fn(Slot) -> u32, p: u32) -> Option<u32> {
+        let t = self.get(&id)?;
+        // table slots not passed by the invocation cannot exist for a canonical invocation
+        for s in &t.slots {
+            if !e.contains_key(s) {
+                e.insert(*s, redundant(*s));
+            }
+        }
+        Some(t.lookup(&e, p))
+    }
+}
+
+/// Lazily evaluated class values: every class with a finite term gets one representative e-node whose
+/// children got theirs earlier (so the dependency is acyclic); the value of a class under an environment is
+/// the value of its representative, memoised. Works for any number of slots (no tables).
+pub struct LazyVals {
+    pub rep: HashMap<Id, LA>,
+    pub slots: HashMap<Id, Vec<Slot>>,
+    memo: std::cell::RefCell<HashMap<(Id, Vec<u32>), u32>>,
+}
+
+pub fn lazy_vals<N: Analysis<LA>>(eg: &EGraph<LA, N>) -> LazyVals {
+    let mut ids = eg.ids();
+    ids.sort();
+    let nodes: Vec<(Id, Vec<LA>)> = ids
+        .iter()
+        .map(|i| {
+            let mut ns: Vec<LA> = eg.enodes(*i).into_iter().collect();
+            ns.sort();
+            (*i, ns)
+        })
+        .collect();
+    let mut rep: HashMap<Id, LA> = HashMap::new();
+    loop {
+        let mut changed = false;
+        for (id, ns) in &nodes {
+            if rep.contains_key(id) {
+                continue;
+            }
+            if let Some(n) = ns.iter().find(|n| n.applied_id_occurrences().iter().all(|a| rep.contains_key(&a.id))) {
+                rep.insert(*id, n.clone());
+                changed = true;
+            }
+        }
+        if !changed {
+            break;
+        }
+    }
+    let slots = ids
+        .iter()
+        .map(|i| {
+            let mut sl: Vec<Slot> = eg.slots(*i).iter().copied().collect();
+            sl.sort();
+            (*i, sl)
+        })
+        .collect();
+    LazyVals { rep, slots, memo: Default::default() }
+}
+
+impl ClassVals for LazyVals {
+    fn class_value(&self, id: Id, e: HashMap<Slot, u32>, redundant: &dyn Fn(Slot) -> u32, p: u32) -> Option<u32> {
+        let n = self.rep.get(&id)?;
+        let sl = self.slots.get(&id)?;
+        let mut full: HashMap<Slot, u32> = HashMap::new();
+        let mut key: Vec<u32> = Vec::with_capacity(sl.len());
+        for s in sl {
+            let v = match e.get(s) {
+                Some(v) => *v,
+                None => redundant(*s),
+            };
+            full.insert(*s, v);
+            key.push(v);
+        }
+        if let Some(v) = self.memo.borrow().get(&(id, key.clone())) {
+            return Some(*v);
+        }
+        // slots of the representative that the class does not have are redundant: any value will do
+        let v = eval_node(n, &full, &|_| 0, self, p)?;
+        self.memo.borrow_mut().insert((id, key), v);
+        Some(v)
+    }
+}
+
+/// Classes with more than MAX_TABLE_SLOTS slots: every e-node against the lazily evaluated value of its
+/// class under a few random environments (and two assignments of the e-node's redundant slots).
+pub fn check_wide<N: Analysis<LA>>(eg: &EGraph<LA, N>, lv: &LazyVals, p: u32, salt: u64) -> Result<u64, String> {
+    let mut checked = 0u64;
+    let mut ids = eg.ids();
+    ids.sort();
+    for id in ids {
+        let Some(sl) = lv.slots.get(&id) else { continue };
+        if sl.len() <= MAX_TABLE_SLOTS || !lv.rep.contains_key(&id) {
+            continue;
+        }
+        let mut ns: Vec<LA> = eg.enodes(id).into_iter().collect();
+        ns.sort();
+        for (ni, n) in ns.iter().enumerate() {
+            for t in 0..3u64 {
+                let mut env: HashMap<Slot, u32> = HashMap::new();
+                for (k, s) in sl.iter().enumerate() {
+                    env.insert(*s, (crate::rng::mix(salt ^ (id.0 as u64) << 20 ^ (ni as u64) << 8 ^ t << 40 ^ k as u64) % p as u64) as u32);
+                }
+                let red = |s: Slot| -> u32 {
+                    let mut h = std::collections::hash_map::DefaultHasher::new();
+                    use std::hash::{Hash, Hasher};
+                    s.hash(&mut h);
+                    (crate::rng::mix(h.finish() ^ salt ^ t.wrapping_mul(0x9E37)) % p as u64) as u32
+                };
+                let Some(want) = lv.class_value(id, env.clone(), &|_| 0, p) else { continue };
+                if let Some(v) = eval_node(n, &env, &red, lv, p) {
+                    checked += 1;
+                    if v != want {
+                        let mut ev: Vec<(Slot, u32)> = env.iter().map(|(a, b)| (*a, *b)).collect();
+                        ev.sort();
+                        return Err(format!("class {id:?}{sl:?} ({} slots): e-node {n:?} evaluates to {v} but the class's representative {:?} evaluates to {want} under {ev:?} (mod {p})", sl.len(), lv.rep[&id]));
+                    }
+                }
+            }
+        }
+    }
+    Ok(checked)
+}
+
 /// value of an e-node under `env` (covering class slots; other public slots are redundant and
-/// taken from `redundant`), given the tables of the child classes. None if a child is unknown.
-pub fn eval_node(n: &LA, env: &HashMap<Slot, u32>, redundant: &dyn Fn(Slot) -> u32, tables: &HashMap<Id, Table>, p: u32) -> Option<u32> {
+/// taken from `redundant`), given the values of the child classes. None if a child is unknown.
+pub fn eval_node(n: &LA, env: &HashMap<Slot, u32>, redundant: &dyn Fn(Slot) -> u32, tables: &dyn ClassVals, p: u32) -> Option<u32> {
     let get = |s: Slot, extra: &[(Slot, u32)]| -> u32 {
         for (x, v) in extra.iter().rev() {
             if *x == s {
@@ -115,18 +246,11 @@ pub fn eval_node(n: &LA, env: &HashMap<Slot, u32>, redundant: &dyn Fn(Slot) -> u
         }
     };
     let child = |a: &AppliedId, extra: &[(Slot, u32)]| -> Option<u32> {
-        let t = tables.get(&a.id)?;
         let mut e: HashMap<Slot, u32> = HashMap::new();
         for (k, v) in a.m.iter() {
             e.insert(k, get(v, extra));
         }
-        // table slots not passed by the invocation cannot exist for a canonical invocation
-        for s in &t.slots {
-            if !e.contains_key(s) {
-                e.insert(*s, redundant(*s));
-            }
-        }
-        Some(t.lookup(&e, p))
+        tables.class_value(a.id, e, redundant, p)
     };
     Some(match n {
         LA::Num(c) => c % p,
